@@ -19,7 +19,7 @@
    between CleanSubmittedTransactions and CheckAndCleanAllTransactions). *)
 From Coq Require Import ZArith NArith Bool List String Permutation.
 From ELA Require Import model.C34_Pool proof.C34_FeeList proof.C34_Inv proof.C34_Hist
-     proof.C34_Cover proof.C34_Table gen.C34_slots model.C34_Spec corr.C34_corr.
+     proof.C34_Cover proof.C34_Cause proof.C34_Table gen.C34_slots model.C34_Spec corr.C34_corr.
 Import ListNotations.
 Local Open Scope string_scope.
 Local Open Scope Z_scope.
@@ -69,6 +69,20 @@ Theorem C34_check_clean_restores : forall rlt U tbl, strict_weak rlt -> sizes_ok
   consistent rlt U tbl (check_clean rlt U tbl order rej limit p).
 Proof. intros rlt U tbl (H1 & H2 & H3) Hs. exact (check_clean_consistent rlt H1 H3 U tbl Hs). Qed.
 Print Assumptions C34_check_clean_restores.
+
+(* What a block connection can de-index: after CleanSubmittedTransactions on a
+   consistent pool, a key of a still-held transaction is missing from its slot
+   map only if a transaction of the block claims the same key, or it is an own
+   owner / node / CID key of a held Update* transaction (the RemoveKey calls of
+   cleanCanceledProducerAndCR).  So [op_ok] holds as soon as the chain rejects
+   the pool transactions that conflict with the connected block. *)
+Theorem C34_deindexed_only_by_block : forall rlt U tbl, strict_weak rlt -> sizes_ok U ->
+  forall p blk onduty, consistent rlt U tbl p ->
+  let q := clean_submitted rlt U tbl blk onduty p in
+  forall x k, In x (p_txs q) -> In k (keys_of U tbl x) ->
+  In (k, x) (p_slots q) \/ cause U tbl p blk k.
+Proof. intros rlt U tbl (H1 & H2 & H3) Hs. exact (deindexed_only_by_block rlt U tbl H1 H2 H3 Hs). Qed.
+Print Assumptions C34_deindexed_only_by_block.
 
 (* All histories of submissions, removals and block connections (each followed
    by the post-block cleanup) from the empty pool end in a consistent pool.
